@@ -70,6 +70,13 @@ def scenarios(ctx):
     G.append(g)
     rstarts = [None, [2, 0, 1], [1]] + ([] if ctx.quick else [[0, 0], [3, 1, 0, 2], [1, 1, 1, 1, 1, 1]])
     ratoms = [(), (2,)] + ([] if ctx.quick else [(2, 3), (1,)])
+    # ONE metadata change given partly as a dictionary and partly as keywords
+    c = history_case(r, 'int16', 'big', (2,), ['ms'], metadata={'fs': 20000, 'unit': 'mV'})
+    c['ops'] = [dict(op='metaset', value={'fs': 48000}, kw={'unit': 'V'})]
+    A.append(c)
+    g = rhistory_case(r, 'float64', 'little', (), 'int32', [1, 2], ['ms'], metadata={'fs': 20000, 'unit': 'mV'})
+    g['ops'] = [dict(op='metaset', value={'fs': 48000}, kw={'unit': 'V'})]
+    G.append(g)
     for start in rstarts:
         for atom in ratoms:
             for n in ((1, 2, 3) if ctx.quick else (1, 2, 3, 4)):
